@@ -45,7 +45,7 @@ class Solvers:
         self.answers[name][ans] = self.answers[name].get(ans, 0) + 1
         return ans, dt
 
-    def check(self, formulas, need_model=True):
+    def check(self, formulas, need_model=True, witness=False):
         self.queries += 1
         s = z3.Solver()
         s.set('timeout', self.timeout_s * 1000)
@@ -60,6 +60,9 @@ class Solvers:
         self.answers['z3'][str(r)] = self.answers['z3'].get(str(r), 0) + 1
         model = s.model() if r == z3.sat else None
         smt2 = None
+        if witness and answers['z3'] == 'sat':
+            # a reachability witness only needs one solver to exhibit a model
+            return Verdict('sat', model, answers, times, len(formulas))
         if self.use_cvc5 or self.use_z3_old:
             smt2 = '(set-logic ALL)\n' + s.to_smt2()
         if self.use_cvc5:
